@@ -185,7 +185,9 @@ def main(argv):
     # ---------------- witness probes (thorough: all registered; on violation: those registered for the property)
     probe_results = []
     probes = P.get('probes', [])
-    if probes and (tier == 'thorough' or violations):
+    # (also when the deductive check is undecided: a bounded probe that finds a concrete failing input on the real code
+    #  turns 'undecided' into a violation with a witness; finding nothing leaves it undecided)
+    if probes and (tier == 'thorough' or violations or undecided):
         for pb in probes:
             found, out = run_probe(pb)
             probe_results.append({'probe': pb, 'found_failing_input': found, 'output': out[-1500:]})
